@@ -629,7 +629,36 @@ def nontrivial(c, o):
 def pregen(ctx):
     """tie (T): re-translate nodes/readouts/ridge.py + base.py of the tree under test into coq/gen/Gen_ridge.v"""
     from vlib import gen
-    return gen.pregen_units(["ridge"])
+    errs = [gen.pregen_units(["ridge"]), _pregen_parallel()]
+    return "\n".join(e for e in errs if e) or None
+
+
+def _pregen_parallel():
+    """tie (T): re-translate the parallel glue of nodes/esn.py (_sort_and_unpack, the `return idx, ...` of _run_fn, the ESN.run and ESN.fit
+    dispatches, the lock rule, except: clean_buffers; raise) of the tree under test into coq/gen/Gen_parallel.v (translator vlib/py2coq_par.py,
+    vocabulary coq/base/ParPrelude.v); proofs/Gen_parallel_eq.v proves them against model/Conc.v (C09_generated_sort_and_unpack_*,
+    C09_generated_run_*, C09_generated_fit_*).  Independent of the ridge unit.  Returns None or the error text; on rejection a stub that does
+    not compile replaces the file (never a stale model)."""
+    import os
+    import traceback
+    from vlib import py2coq_par
+    path = os.path.join(core.COQ, "gen", "Gen_parallel.v")
+    os.makedirs(os.path.dirname(path), exist_ok=True)
+    err = None
+    try:
+        text = py2coq_par.emit(core.REPO)
+    except py2coq_par.Reject as ex:
+        err = "translation rejected: %s" % ex
+    except Exception:
+        err = "translator exception: " + traceback.format_exc()[-1500:]
+    if err is not None:
+        text = "(* GENERATED: translation of the parallel glue of nodes/esn.py FAILED -- %s *)\nDefinition translation_failed : True := 0.\n" % (
+            err.replace("*)", "* )").replace("(*", "( *"))
+    old = open(path).read() if os.path.exists(path) else None
+    if old != text:               # keep the mtime (and the compiled cone) when nothing changed
+        with open(path, "w") as f:
+            f.write(text)
+    return None if err is None else "parallel glue (_sort_and_unpack / ESN.run / ESN.fit dispatch): %s" % err
 
 
 def correspondence(ctx):
